@@ -74,6 +74,7 @@ public:
         // We need Write Read memory barrier before notify that reads the waiter list.
         // In C++ only full fence covers this type of barrier.
         my_flag.exchange(false);
+        __TBB_VERIF_POINT(vp_rwm_step, this, 2);
         my_flag.notify_one_relaxed();
     }
 
